@@ -19,7 +19,7 @@ Inductive pyexn :=
   | KeyError                (* op_string_to_function[op] *)
   | IndexError              (* s[0] of an empty string *)
   | NameError               (* a name the fragment does not bind *)
-  | FloatResult.            (* int ** negative int is a float: not modelled, see pow_guarded *)
+  | FloatResult.            (* int ** negative int is a float: not modelled (unreachable behind _pow's test) *)
 
 Inductive liberr :=
   | ExprOpRaised                          (* FlipJumpExprException raised by an operator function (_pow) *)
@@ -156,10 +156,15 @@ Definition apply_op : opname -> list Z -> outcome Z := apply_op_in doc_op_table.
 Definition is_int (e : expr) : bool := match e with EInt _ => true | _ => false end.
 Definition int_values (l : list expr) : list Z := flat_map (fun e => match e with EInt z => [z] | _ => [] end) l.
 
-(* get_minimized_expr(op, params): no try/except - whatever the operator raises escapes *)
+(* get_minimized_expr(op, params):  try: ... except FlipJumpExprException: raise
+                                     except Exception as e: raise FlipJumpExprException("... bad math operation ...") *)
 Definition get_minimized_expr (o : opname) (params : list expr) : outcome expr :=
   if forallb is_int params
-  then bind (apply_op o (int_values params)) (fun z => Ok (EInt z))
+  then match apply_op o (int_values params) with
+       | Ok z => Ok (EInt z)
+       | LibError k => LibError k
+       | RawExn x => LibError (ExprBadMath (Some x))
+       end
   else Ok (EOp o params).
 
 Definition msubst := string -> option expr.
@@ -318,7 +323,7 @@ Definition final_outcome (v : value) : outcome Z :=
   | Err (Unbound s) => LibError (ExprCantEvaluateLabel s)
   end.
 
-(* how the bare operator functions report them (what escapes get_minimized_expr) *)
+(* how the bare operator functions of the table report them (before any of the three callers wraps them) *)
 Definition raw_outcome (v : value) : outcome Z :=
   match v with
   | Val z => Ok z
@@ -499,15 +504,13 @@ Record ecase := mk_ecase {
   ec_labels : list (string * Z);
   ec_obs : obs }.
 
-Definition word_obs (w : Z) (is_flip : bool) (z : Z) : obs :=
-  if is_flip && ((z <? 0) || (2 ^ w <=? z)) then ObsCatchAll "error"      (* struct.error: finding F8 (C14) *)
-  else ObsWord (z mod 2 ^ w).
+(* BinaryData.insert_fj_op: a flip / jump value outside [0, 2^w) is refused ("Not enough space ...") *)
+Definition word_obs (w : Z) (z : Z) : obs :=
+  if (z <? 0) || (2 ^ w <=? z) then ObsLibError "FlipJumpAssemblerException" else ObsWord z.
 
-Definition expected_obs (w : Z) (is_flip : bool) (r : stage * outcome Z) : obs :=
+Definition expected_obs (w : Z) (r : stage * outcome Z) : obs :=
   match r with
-  | (_, Ok z) => word_obs w is_flip z
-  | (AtParse, RawExn ZeroDivisionError) => ObsCatchAll "ZeroDivisionError"          (* finding F7 (C14) *)
-  | (AtParse, RawExn ValueError) => ObsCatchAll "ValueError"                        (* finding F7 (C14) *)
+  | (_, Ok z) => word_obs w z
   | (_, LibError ParseCantEvaluate) => ObsSyntaxError
   | (AtParse, LibError _) => ObsLibError "FlipJumpExprException"
   | (AtSubst _, LibError _) => ObsLibError "FlipJumpExprException"
@@ -521,11 +524,11 @@ Definition ecase_model (c : ecase) : obs :=
   | Some e =>
       let consts := env_of_list (ec_consts c) in
       match ec_kind c with
-      | O => expected_obs (ec_w c) (ec_is_flip c)
+      | O => expected_obs (ec_w c)
                (staged_trace consts (map (model_binding consts) (ec_stages c)) (env_of_list (ec_labels c)) e)
       | _ => match define_const consts e with
-             | Ok z => word_obs (ec_w c) (ec_is_flip c) z
-             | r => expected_obs (ec_w c) (ec_is_flip c)
+             | Ok z => word_obs (ec_w c) z
+             | r => expected_obs (ec_w c)
                       (match parse_build consts e with Ok _ => AtSubst 0 | _ => AtParse end, r)
              end
       end
@@ -544,13 +547,16 @@ Definition ecase_spec (c : ecase) : option (option Z) :=
       end
   end.
 
+(* a value inside [0, 2^w) must be the word; a value outside, or an error, must be reported as an error *)
 Definition spec_allows (c : ecase) : bool :=
   match ecase_spec c, ec_obs c with
   | None, ObsSyntaxError => true
   | None, _ => false
-  | Some (Some z), ObsWord x => z mod 2 ^ ec_w c =? x
+  | Some (Some z), ObsWord x => (z =? x) && (0 <=? z) && (z <? 2 ^ ec_w c)
+  | Some (Some z), ObsLibError _ => (z <? 0) || (2 ^ ec_w c <=? z)
   | Some (Some _), _ => false
   | Some None, ObsWord _ => false
+  | Some None, ObsCatchAll _ => false          (* C14 territory, but never expected here *)
   | Some None, _ => true
   end.
 
@@ -563,10 +569,14 @@ Definition diag_ecase (c : ecase) := (ecase_model c, ecase_spec c, obs_eqb (ecas
 Record lcase := mk_lcase {
   lc_kind : nat;
   lc_w : Z;
+  lc_shift : Z;                    (* the program is  ;(literal >> shift) & (2^w - 1)  (shift 0: the bare literal) *)
   lc_text : text;
   lc_items : list char_item;       (* kind 1: the items the generator wrote *)
   lc_intended : Z;                 (* the value the language gives to what was written *)
   lc_obs : obs }.
+
+Definition lcase_word (c : lcase) (z : Z) : obs :=
+  if lc_shift c =? 0 then word_obs (lc_w c) z else ObsWord ((z / 2 ^ lc_shift c) mod 2 ^ lc_w c).
 
 Definition lcase_model (c : lcase) : obs :=
   let r := match lc_kind c with
@@ -578,10 +588,9 @@ Definition lcase_model (c : lcase) : obs :=
                   | None => RawExn ValueError
                   end
            end in
-  match r with Ok z => ObsWord (z mod 2 ^ lc_w c) | _ => ObsCatchAll "<decoder failed>" end.
+  match r with Ok z => lcase_word c z | _ => ObsCatchAll "<decoder failed>" end.
 
-Definition lcase_spec (c : lcase) : bool :=
-  match lc_obs c with ObsWord x => lc_intended c mod 2 ^ lc_w c =? x | _ => false end.
+Definition lcase_spec (c : lcase) : bool := obs_eqb (lcase_word c (lc_intended c)) (lc_obs c).
 
 Definition lcase_wellformed (c : lcase) : bool :=
   match lc_kind c with
@@ -615,7 +624,12 @@ Definition modelled_sources : list (string * string) :=
   [ ("expr.get_minimized_expr",
 "def get_minimized_expr(op: str, params: Tuple[Expr, ...]) -> Expr:
     if all((param.is_int() for param in params)):
-        return Expr(op_string_to_function[op](*map(int, params)))
+        try:
+            return Expr(op_string_to_function[op](*map(int, params)))
+        except FlipJumpExprException:
+            raise
+        except Exception as e:
+            raise FlipJumpExprException(f'{repr(e)}. bad math operation ({op}): {str(Expr((op, params)))}.')
     else:
         return Expr((op, params))");
     ("expr.Expr.__init__",
